@@ -26,31 +26,31 @@ type Clause struct {
 }
 
 type Item struct {
-	Kind     string // "func" | "lemma"
-	PkgDir   string // relative dir in repo ("" for root)
-	File     string
-	Line     int
-	Name     string // function name or lemma name
-	Recv     string // receiver type name for methods ("" otherwise)
-	PtrRecv  bool
-	Names    []string // positional parameter names (func)
-	Results  []string // result names (func)
-	Sig      string   // lemma: "[A, B any](m fp.Option[A], …)"
-	Props    []string
-	Inst     string // explicit type arguments for the driver
-	MoreInst []string // further instantiations (summary predicates only)
-	Clauses  []Clause
-	Imports  []string // extra imports, raw spec text
-	Trace    bool
-	Options  map[string]string
-	Stale    string // set when the item could not be bound/type-checked
-	SchemaN  int
-	Decls    []string // extra ghost declarations (helper funcs) attached to package
-	Loops    []LoopSpec
-	Ghosts   []GhostStmt
-	CalleeOf bool
+	Kind        string // "func" | "lemma"
+	PkgDir      string // relative dir in repo ("" for root)
+	File        string
+	Line        int
+	Name        string // function name or lemma name
+	Recv        string // receiver type name for methods ("" otherwise)
+	PtrRecv     bool
+	Names       []string // positional parameter names (func)
+	Results     []string // result names (func)
+	Sig         string   // lemma: "[A, B any](m fp.Option[A], …)"
+	Props       []string
+	Inst        string   // explicit type arguments for the driver
+	MoreInst    []string // further instantiations (summary predicates only)
+	Clauses     []Clause
+	Imports     []string // extra imports, raw spec text
+	Trace       bool
+	Options     map[string]string
+	Stale       string // set when the item could not be bound/type-checked
+	SchemaN     int
+	Decls       []string // extra ghost declarations (helper funcs) attached to package
+	Loops       []LoopSpec
+	Ghosts      []GhostStmt
+	CalleeOf    bool
 	GhostParams []string // "name type": extra universally quantified parameters of the contract, bound at call sites to the caller's variable of that name
-	Logical  bool // the contract file says `logical`: && and || of its specifications are lowered to verifspec.And / Or
+	Logical     bool     // the contract file says `logical`: && and || of its specifications are lowered to verifspec.And / Or
 }
 
 type GhostStmt struct {
@@ -67,14 +67,14 @@ type LoopSpec struct {
 }
 
 type ContractFile struct {
-	PkgDir  string
-	Path    string
-	Imports []string
-	Decls   []string // raw ghost Go declarations ("//@ ghost …" blocks)
+	PkgDir   string
+	Path     string
+	Imports  []string
+	Decls    []string // raw ghost Go declarations ("//@ ghost …" blocks)
 	DeclsBad string   // set when a ghost block does not compile: the file's items become stale
-	declLn  [][2]int
-	Items   []*Item
-	Logical bool
+	declLn   [][2]int
+	Items    []*Item
+	Logical  bool
 }
 
 var reFuncHdr = regexp.MustCompile(`^func\s+(?:\(\s*(\*?)\s*([A-Za-z_][A-Za-z0-9_]*)\s*\)\s*\.\s*)?([A-Za-z_][A-Za-z0-9_]*)\s*\(([^)]*)\)\s*(.*)$`)
